@@ -1,7 +1,19 @@
 #!/bin/sh
-# MANIFEST.setup_cmd: offline build of the whole framework from files on disk.
+# MANIFEST.setup_cmd: offline build of the framework from files on disk.  Builds the property
+# theorems and model drivers of every property claimed in MANIFEST.json.
 set -e
 cd "$(dirname "$0")"
+mkdir -p .run evidence replays
 /venv/bin/python tools/extract.py
+TARGETS=$(python3 - <<'PY'
+import json
+m = json.load(open("MANIFEST.json"))
+t = []
+for c in m["checks"]:
+    p = c["property_id"]
+    t += [f"DmrVerif.Props.{p}", f"drv_{p.lower()}"]
+print(" ".join(t))
+PY
+)
 cd lean
-lake build DmrVerif driver
+flock ../.run/lake.lock lake build $TARGETS
